@@ -141,6 +141,32 @@ def gen_cases(rng, tier):
         if rng.random() < 0.15:
             ops += [4]
         cases.append(("stroke_geo", [f2b(width), f2b(rng.choice([1.0, 2.0, 4.0, 10.0])), rng.randrange(3), rng.randrange(4), f2b(1.0)] + ops))
+    # long waves of strongly curved quads in ONE path (state carried from segment to segment inside a stroke), and cubics whose
+    # end tangents are exactly parallel or anti-parallel (U, arch and half-stadium shapes)
+    for i in range(40 if q else 500):
+        width = rng.choice([12.0, 24.0, 30.0])
+        if i % 2 == 0:
+            n = rng.choice([12, 20, 40])
+            amp = rng.choice([30.0, 60.0])
+            step = rng.choice([60.0, 80.0])
+            ops = [0, f2b(0.0), f2b(100.0)]
+            for k in range(n):
+                x0 = k * step
+                ops += [2, f2b(x0 + step / 2), f2b(100.0 + (amp if k % 2 == 0 else -amp) * 2), f2b(x0 + step), f2b(100.0)]
+            cap = rng.randrange(3)
+            cases.append(("stroke_geo", [f2b(width), f2b(4.0), cap, 2, f2b(1.0)] + ops))
+        else:
+            s_ = rng.choice([200.0, 120.0, 64.0])
+            hgt = rng.choice([200.0, 150.0, 80.0])
+            x0, y0 = rng.choice([100.0, 37.5, 0.0]), rng.choice([300.0, 10.25])
+            shape = rng.randrange(3)
+            if shape == 0:    # U: both end tangents vertical
+                ops = [0, f2b(x0), f2b(y0), 3, f2b(x0), f2b(y0 - hgt), f2b(x0 + s_), f2b(y0 - hgt), f2b(x0 + s_), f2b(y0)]
+            elif shape == 1:  # arch on its side: both end tangents horizontal
+                ops = [0, f2b(x0), f2b(y0), 3, f2b(x0 + hgt), f2b(y0), f2b(x0 + hgt), f2b(y0 + s_), f2b(x0), f2b(y0 + s_)]
+            else:             # parallel (not anti-parallel) end tangents: an S between two vertical tangents
+                ops = [0, f2b(x0), f2b(y0), 3, f2b(x0), f2b(y0 - hgt), f2b(x0 + s_), f2b(y0 + hgt), f2b(x0 + s_), f2b(y0)]
+            cases.append(("stroke_geo", [f2b(rng.choice([4.0, 12.0, 30.0])), f2b(4.0), rng.randrange(3), rng.randrange(4), f2b(1.0)] + ops))
     return cases
 
 
